@@ -10,8 +10,9 @@ def cr : UInt8 := 13
 def lf : UInt8 := 10
 def crlf : Bytes := [13, 10]
 
-/-- ASCII bytes of a Lean string literal (used for protocol keywords only). -/
-def sb (s : String) : Bytes := s.toUTF8.toList
+/-- ASCII bytes of a Lean string literal (used for protocol keywords only; every literal in the
+    models is ASCII). Defined through `String.toList` so that it reduces in the kernel. -/
+def sb (s : String) : Bytes := s.toList.map (fun c => c.toNat.toUInt8)
 
 /-- Byte-table facts are proved by enumerating `Fin 256` in the kernel. -/
 theorem forall_uint8 {P : UInt8 → Prop} (h : ∀ n : Fin 256, P (UInt8.ofNat n.val)) : ∀ b, P b := by
